@@ -5,6 +5,7 @@ mod c04;
 mod voicegen;
 mod c18;
 mod c20;
+mod spectral;
 mod vset;
 mod dur;
 mod eng;
@@ -32,6 +33,7 @@ fn main() {
         "vset-replay" => vset::replay(&a[2], &a[3], &a[4]),
         "c18-run" => c18::run(&a[2], &a[3]),
         "c18-worker" => c18::worker(&a[2], n(3)),
+        "spectral-run" => spectral::run(&a[2], &a[3]),
         "c20-replay" => c20::replay(&a[2], &a[3]),
         other => die(&format!("unknown command {}", other)),
     }
